@@ -433,6 +433,10 @@ def judge_C10(v):
                 out.append(('stage-occupancy:%s' % ['request', 'submission', 'io'][names.index(n)],
                             v.wit(queued_or_running=st[n][3], bound=b),
                             '%d queued-or-running tasks in a stage bounded by %d' % (st[n][3], b)))
+    for (stage, tag), (h, cap) in (getattr(v.run, 'occupancy', None) or {}).items():
+        if cap is not None and h > cap:
+            out.append(('permits-exceeded:%s:%s' % (stage, tag or 'queue'), v.wit(stage=stage, tag=tag, queued_or_running=h, limit=cap),
+                        '%d queued-or-running %s tasks%s, limit %d' % (h, stage, ' tagged ' + tag if tag else '', cap)))
     # streaming destination: offsets strictly increasing
     for ti, t in enumerate(v.sc['transfers']):
         if t['kind'] == 'download' and t.get('dest') == 'nonseekable':
